@@ -97,6 +97,8 @@ def run(ctx):
             for a, pol in guards_at(ea, call):
                 cp = compare_parts(a)
                 if cp and isinstance(cp[1], ast.Is) and isinstance(cp[2], ast.Constant) and cp[2].value is None and pol:
+                    if "logic.actions.get" in norm(cp[0]):
+                        ok = True          # the lookup itself (a named condition expanded down to it)
                     for asg in assignments_to(ea, norm(cp[0])):
                         if "logic.actions.get" in norm(getattr(asg, "value", asg)):
                             ok = True
